@@ -49,6 +49,20 @@ SEEDS = {
     'C15e': ('C15', ['C15'], 'moved events: the time window is tested on the source name when both names match', 'rename between two matching names on opposite sides of the window'),
     'C16e': ('C16', ['C16'], 'duration expirer returns early for single-file groups and skips the next expirer in the chain (size limit)', 'size + duration limits; a new file that is alone in its group pushes the total over the size limit'),
     'C19e': ('C19', ['C19'], 'digital_rf_get_last_file_written strips the first "tmp." found anywhere in the path', 'channel directory path containing "tmp."'),
+    'C01f': ('C01', ['C01', 'C09', 'C08'], "reader remembers candidate files that were missing when probed and never probes them again (negative cache in _read)", 'one long-lived reader: a read beyond the current bounds before a file is published, then a read of that file after publication'),
+    'C02f': ('C02', ['C02'], 'drf_properties.h5: the staged tmp file is renamed to its final name before H5Fclose (close hoisted behind the rename)', 'new channel; process killed between the rename and the end of H5Fclose'),
+    'C05f': ('C05', ['C05'], 'validation loop of create_rf_data_index stops at the first block beyond the current file: a malformed later block is detected only after earlier files were written', 'C API; multi-block call crossing a file boundary with the malformed entry after the first block of the next file'),
+    'C06f': ('C06', ['C06', 'C11'], 'properties verification compares the rate quotient instead of numerator and denominator', 'second session on an existing channel with an equivalent, unreduced fraction (200/2 vs 100/1)'),
+    'C07f': ('C07', ['C07', 'C01'], 'continuous un-chunked files reuse the dataspace of the first file of the session: later files get its row count', 'non-integer samples per file (200/3 Hz, 400 ms); a longer-window file created first, a shorter-window one later'),
+    'C08f': ('C08', ['C08', 'C01'], '_combine_blocks tracks "block in progress" by truthiness of the block key: a block starting at sample 0 loses its first piece', 'channel with data at sample index 0 and a query yielding >= 2 pieces'),
+    'C10f': ('C10', ['C10'], 'roll-over: a failed H5Dclose / H5Fclose of the previous file no longer aborts the call (only a failed rename does)', 'I/O fault in the close of a full file at roll-over, and that call is the last one on the writer'),
+    'C11f': ('C11', ['C11', 'C08'], 'read() stops visiting top-level directories once the collected blocks cover both ends of the request', '>= 3 interleaved sessions over 2 top-level directories (X, Y, X), one read with its ends in X and its interior in Y'),
+    'C12f': ('C12', ['C12', 'C13'], 'metadata writer caches the subdirectory across the files of one write call (> instead of >=): a file at the start of the next subdirectory lands in the previous one', 'batch write spanning a subdirectory boundary, next group in the first file of the following subdirectory'),
+    'C14f': ('C14', ['C14'], 'window end: one bisect at endtime + 1 ms instead of stepping over entries equal to endtime', 'endtime with sub-millisecond resolution and a file less than 1 ms after it'),
+    'C16f': ('C16', ['C16'], '_add_record no longer calls _modify_record for an already tracked path: the size expirer keeps the old size', 'size limit; the same path added twice with a different size'),
+    'C17f': ('C17', ['C17', 'C16'], 'sorted insertion rewritten: a record older than everything queued lands at index 1', 'move mode; event of an older metadata file handled after a newer one (count=1 ringbuffer deletes the newest)'),
+    'C19f': ('C19', ['C19', 'C05'], 'extension rf_write returns next_sample + vector_length instead of the library cursor', 'zero-length rf_write with an explicit next_sample beyond the next available sample'),
+    'C20f': ('C20', ['C20', 'C12'], "_add_metadata treats a KeyError (missing column) like an unreadable file: the file is deleted when old enough", 'column-restricted read; a sample lacking that column; file older than one cadence'),
     'C02': ('C02', ['C02', 'C09'], 'existence check of the finished name skipped when the subdirectory was "just created" (in effect always)',
             'a second session writing into a period whose finalized file exists'),
     'C02b': ('C02', ['C02'], 'a failed exclusive create on an existing tmp name no longer marks the writer failed: close publishes the stale tmp file',
